@@ -492,13 +492,41 @@ pub struct TapeRng {
 }
 
 impl TapeRng {
+    /// Narrow tape: each draw is `v << 56` for a symbolic byte `v`. foca samples
+    /// with widening multiplication (`(x * n) >> width`), which is monotone in
+    /// `x`, so these 256 values realise *every* outcome of every range of size
+    /// <= 256 (member selection, insertion position); other values of `x` only
+    /// repeat outcomes. Shuffles (which decode a permutation from one draw) get
+    /// the wide tape in their dedicated harnesses.
     pub fn arb(s: &mut impl Src) -> Self {
-        let mut vals = [0u64; TAPE];
-        let mut i = 0;
-        while i < TAPE {
-            vals[i] = s.u64();
-            i += 1;
+        let vals = [
+            (s.u8() as u64) << 56,
+            (s.u8() as u64) << 56,
+            (s.u8() as u64) << 56,
+            (s.u8() as u64) << 56,
+            (s.u8() as u64) << 56,
+            (s.u8() as u64) << 56,
+            (s.u8() as u64) << 56,
+            (s.u8() as u64) << 56,
+        ];
+        Self {
+            vals,
+            pos: 0,
+            exhausted: false,
         }
+    }
+    /// Wide tape: every draw is a fully symbolic 64-bit value.
+    pub fn arb_wide(s: &mut impl Src) -> Self {
+        let vals = [
+            s.u64(),
+            s.u64(),
+            s.u64(),
+            s.u64(),
+            s.u64(),
+            s.u64(),
+            s.u64(),
+            s.u64(),
+        ];
         Self {
             vals,
             pos: 0,
@@ -529,7 +557,7 @@ impl TapeRng {
 
 impl rand::RngCore for TapeRng {
     fn next_u32(&mut self) -> u32 {
-        self.take() as u32
+        (self.take() >> 32) as u32
     }
     fn next_u64(&mut self) -> u64 {
         self.take()
@@ -546,9 +574,9 @@ impl rand::RngCore for TapeRng {
 // ---------------------------------------------------------------------------
 
 pub const PKT: usize = 40;
-pub const NS: usize = 6;
-pub const NT: usize = 8;
-pub const NN: usize = 8;
+pub const NS: usize = 4;
+pub const NT: usize = 6;
+pub const NN: usize = 6;
 
 #[derive(Clone, Copy, Debug)]
 pub struct Sent {
@@ -594,7 +622,7 @@ impl LogRt {
                 data: [0; PKT],
             }; NS],
             nt: 0,
-            timers: [None, None, None, None, None, None, None, None],
+            timers: [None, None, None, None, None, None],
             nn: 0,
             notes: [Note::Other; NN],
             overflow: false,
